@@ -39,8 +39,104 @@ def gen_assign(maxp: int, maxd: int, maxm: int, maxworld: int, maxl: int,
     return r, out
 
 
+def lpt_valid(costs: list[int], placed: list[int], peers: list[int]) -> bool:
+    """Is `placed` (layer index -> rank) the outcome of SOME least-loaded
+    greedy over the layers in descending cost order (ties between equal-cost
+    layers and between equally loaded ranks broken in any way)?"""
+    seen: set = set()
+
+    def search(rem: frozenset, loads: tuple) -> bool:
+        if not rem:
+            return True
+        if (rem, loads) in seen:
+            return False
+        seen.add((rem, loads))
+        top = max(costs[i] for i in rem)
+        for i in rem:
+            if costs[i] != top:
+                continue
+            w = peers.index(placed[i])
+            if loads[w] != min(loads):
+                continue
+            nl = list(loads)
+            nl[w] += costs[i]
+            if search(rem - {i}, tuple(nl)):
+                return True
+        return False
+
+    if any(p not in peers for p in placed):
+        return False
+    return search(frozenset(range(len(costs))), tuple([0] * len(peers)))
+
+
 def check_assign(d: dict[str, Any]) -> str | None:
-    """One real GPTNeoXAssignment per rank; compare every public query."""
+    """One real GPTNeoXAssignment per rank; compare every public query.
+
+    A result starting with 'DRIFT' is not a violation: the code chose another
+    tie-breaking than spec/GptAssign.tla but every clause of C12 holds
+    (agreement within the stage, valid least-loaded greedy, derived views
+    computed from the code's own inverse worker)."""
+    msg = _check_assign(d, None)
+    if msg is None or 'inv_worker' not in msg and 'factor_worker' not in msg \
+            and 'src_grad_worker' not in msg and 'is_grad_worker' not in msg:
+        return msg
+    # tolerant path: take the inverse workers rank 0 of every stage reports,
+    # validate them as a greedy outcome, and re-derive every expectation
+    from deepspeed.runtime.pipe.topology import PipeModelDataParallelTopology
+    from kfac.gpt_neox.assignment import GPTNeoXAssignment
+    t = d['topo']
+    P, D, M = t['P'], t['D'], t['M']
+    W = P * D * M
+    inv: list[list[int]] = []
+    for p in range(P):
+        r = p * D * M
+        topo = PipeModelDataParallelTopology(num_pp=P, num_mp=M, num_dp=D)
+        layers = d['work'][p]
+        work = {l['name']: {'A': l['c'] - l['c'] // 2, 'G': l['c'] // 2}
+                for l in layers}
+        with simdist.SoloWorld(r, W):
+            a = GPTNeoXAssignment(
+                work, local_rank=r, topology=topo,
+                data_parallel_group='DP', model_parallel_group='MP')
+        row = []
+        for l in layers:
+            ws = {a.inv_worker(l['name'], f) for f in ('A', 'G')}
+            if len(ws) != 1:
+                return msg
+            row.append(next(iter(ws)))
+        peers = [q for q in range(W) if q // (D * M) == p]
+        if not lpt_valid([l['c'] for l in layers], row, peers):
+            return msg + ' (and not a least-loaded greedy outcome under any '\
+                         'tie-breaking)'
+        inv.append(row)
+    pipe = lambda q: q // (D * M)          # noqa: E731
+    data = lambda q: (q // M) % D          # noqa: E731
+    model = lambda q: q % M                # noqa: E731
+    d2 = dict(d)
+    d2['inv'] = inv
+    d2['fw'], d2['src'], d2['gw'] = [], [], []
+    for r in range(W):
+        p = pipe(r)
+        fw, src, gw = [], [], []
+        for i in range(len(d['work'][p])):
+            iw = inv[p][i]
+            fws = [q for q in range(W) if pipe(q) == p and data(q) == data(r)
+                   and model(q) == model(iw)]
+            srcs = [q for q in range(W) if pipe(q) == p
+                    and model(q) == model(r) and data(q) == data(iw)]
+            fw.append(fws[0])
+            src.append(srcs[0])
+            gw.append(data(iw) == data(r))
+        d2['fw'].append(fw)
+        d2['src'].append(src)
+        d2['gw'].append(gw)
+    m2 = _check_assign(d2, None)
+    if m2 is not None:
+        return m2
+    return 'DRIFT tie-breaking differs from GptAssign.Place: ' + msg
+
+
+def _check_assign(d: dict[str, Any], _unused: Any) -> str | None:
     from deepspeed.runtime.pipe.topology import PipeModelDataParallelTopology
     from kfac.gpt_neox.assignment import GPTNeoXAssignment
 
